@@ -34,6 +34,24 @@ INJECTIONS = [
     "stochastic_depends_on_continuous", "filter_with_parameter",
     "grid_start_ge_stop", "grid_n_points_zero", "grid_non_numeric", "grid_nan", "grid_log_nonpositive", "grid_bad_categories",
 ]
+# contexts in which a rule can be violated (enumerated for every single injection on
+# every base; drawn at random inside pairs/triples)
+VARIANTS = {
+    "n_periods_negative": ["minus2", "minus1"],
+    "state_without_transition": ["first", "last"],
+    "name_state_and_choice": ["state_into_choices_first", "state_into_choices_last"],
+    "state_not_a_grid": ["list", "tuple", "ndarray", "none", "grid_class", "dict", "jnp_array"],
+    "choice_not_a_grid": ["tuple", "list", "ndarray", "none", "grid_class", "jnp_array"],
+    "function_not_callable": ["extra_float", "extra_none", "extra_string", "replace_constraint_by_float", "extra_dict"],
+    "stochastic_depends_on_continuous": ["disc_state_and_cont_state", "cont_state_only", "cont_choice", "disc_state_and_cont_choice"],
+    "filter_with_parameter": ["state_choice_param", "state_param", "choice_param", "period_param", "param_only", "two_params"],
+    "grid_start_ge_stop": ["equal_state", "greater_state", "equal_choice", "log_equal"],
+    "grid_n_points_zero": ["zero", "negative", "float"],
+    "grid_non_numeric": ["str_start", "none_stop", "str_n_points"],
+    "grid_nan": ["nan_start", "inf_stop", "neg_inf_start"],
+    "grid_log_nonpositive": ["zero", "negative"],
+    "grid_bad_categories": ["gap", "duplicate", "unordered", "float_half", "not_dataclass", "empty"],
+}
 FEATURES_B = [
     "base", "choice_only_filter", "state_only_filter", "aux_state", "no_states", "no_choices", "stoch_zero_deps",
     "stoch_period_only", "mixed_discrete", "one_period", "restricted_stochastic_state", "filter_on_continuous",
@@ -55,6 +73,15 @@ def plan(tier, seed):
     for bi, base in enumerate([["mixed_discrete", "one_period"], ["two_cont_choices", "period_everywhere"], ["restricted_stochastic_state", "mixed_discrete"]]):
         for k in range(2):
             cases.append({"kind": "reject", "sets": [s for j, s in enumerate(singles) if j % 2 == k], "base": base, "seed": [seed, 127, bi, k], "env": {"VERIF_X64": "1"}})
+    # every context variant of every single rule violation, on bases with and without other filters
+    vlist = [[n, v] for n in INJECTIONS for v in VARIANTS.get(n, [])]
+    vbases = [["base"], ["mixed_discrete"], ["discrete_only"], ["two_cont_choices", "period_everywhere"]] if q else \
+        [["base"], ["mixed_discrete"], ["discrete_only"], ["two_cont_choices", "period_everywhere"], ["one_period"],
+         ["restricted_stochastic_state", "mixed_discrete"], ["no_choices"], ["filter_via_aux"], ["stoch_period_only"]]
+    for bi, base in enumerate(vbases):
+        for k in range(2):
+            cases.append({"kind": "reject_variants", "variants": [x for j, x in enumerate(vlist) if j % 2 == k], "base": base,
+                          "seed": [seed, 128, bi, k], "env": {"VERIF_X64": "1"}})
     for i in range(8 if q else 60):
         trip = None
         cases.append({"kind": "reject_generated", "index": i, "seed": [seed, 122, i], "cfg": "quick", "n_sets": 10, "env": {"VERIF_X64": "1"}})
@@ -277,9 +304,18 @@ class GridRejected(Exception):
     pass
 
 
-def inject(kw, desc, name, rng):
+class NotApplicable(Exception):
+    pass
+
+
+def inject(kw, desc, name, rng, variant=None):
     """Apply one rule violation to the Model kwargs. May raise GridRejected if the grid
-    constructor itself (correctly) rejects."""
+    constructor itself (correctly) rejects, NotApplicable if the base lacks what the
+    variant needs."""
+    import numpy as _np
+
+    if variant is None and name in VARIANTS:
+        variant = VARIANTS[name][int(rng.integers(0, len(VARIANTS[name])))] if rng.random() < 0.5 else None
     import lcm
     from lcm import DiscreteGrid, LinspaceGrid, LogspaceGrid
     from lcm.exceptions import GridInitializationError
@@ -289,14 +325,133 @@ def inject(kw, desc, name, rng):
     cont_s = [s for s, sp in desc["states"] if sp["kind"] != "disc"]
     disc_s = [s for s, sp in desc["states"] if sp["kind"] == "disc"]
 
-    def bad_grid(maker):
+    cont_c = [c for c, sp in desc["choices"] if sp["kind"] != "disc"]
+    disc_c = [c for c, sp in desc["choices"] if sp["kind"] == "disc"]
+
+    def need(*lists):
+        if not all(lists):
+            raise NotApplicable(f"{name}/{variant}")
+
+    def bad_grid(maker, where=None):
         try:
             g = maker()
         except GridInitializationError as e:
             raise GridRejected(str(e)) from e
         target = "states" if st else "choices"
-        key = (st or ch)[0]
+        if where == "choice":
+            need(ch)
+            target = "choices"
+        key = (st if target == "states" else ch)[0]
         kw[target] = {**kw[target], key: g}
+
+    def nongrid(v):
+        import jax.numpy as jnp
+
+        return {"list": [0, 1, 2], "tuple": (0.0, 1.0), "ndarray": _np.arange(3), "none": None, "grid_class": LinspaceGrid,
+                "dict": {"start": 0, "stop": 1, "n_points": 3}, "jnp_array": jnp.arange(3)}[v]
+
+    if variant is not None:
+        done = True
+        if name == "n_periods_negative":
+            kw["n_periods"] = -2 if variant == "minus2" else -1
+        elif name == "state_without_transition":
+            need(st)
+            s_ = st[0] if variant == "first" else st[-1]
+            kw["functions"] = {k: v for k, v in kw["functions"].items() if k != f"next_{s_}"}
+        elif name == "name_state_and_choice":
+            need(st)
+            s_ = st[0] if variant.endswith("first") else st[-1]
+            kw["choices"] = {**kw["choices"], s_: kw["states"][s_]}
+        elif name == "state_not_a_grid":
+            need(st)
+            kw["states"] = {**kw["states"], st[-1]: nongrid(variant)}
+        elif name == "choice_not_a_grid":
+            need(ch)
+            kw["choices"] = {**kw["choices"], ch[-1]: nongrid(variant)}
+        elif name == "function_not_callable":
+            if variant == "replace_constraint_by_float":
+                cons = [k for k in kw["functions"] if k.endswith("_constraint")]
+                need(cons)
+                kw["functions"] = {**kw["functions"], cons[0]: 1.0}
+            else:
+                val = {"extra_float": 3.0, "extra_none": None, "extra_string": "utility", "extra_dict": {"a": 1}}[variant]
+                kw["functions"] = {**kw["functions"], "helper_value": val}
+        elif name == "stochastic_depends_on_continuous":
+            need(disc_s)
+            s_ = disc_s[0]
+            if variant == "disc_state_and_cont_state":
+                need(cont_s)
+                args = [s_, cont_s[0]]
+            elif variant == "cont_state_only":
+                need(cont_s)
+                args = [cont_s[0]]
+            elif variant == "cont_choice":
+                need(cont_c)
+                args = [cont_c[0]]
+            else:
+                need(cont_c)
+                args = [s_, cont_c[0]]
+            ns = {}
+            exec(f"def next_{s_}({', '.join(args)}):\n    pass\n", ns)  # noqa: S102
+            kw["functions"] = {**kw["functions"], f"next_{s_}": lcm.mark.stochastic(ns[f"next_{s_}"])}
+        elif name == "filter_with_parameter":
+            if variant == "state_choice_param":
+                need(disc_s, disc_c)
+                src = f"def p_filter({disc_s[0]}, {disc_c[0]}, cutoff):\n    return {disc_c[0]} <= {disc_s[0]} + cutoff\n"
+            elif variant == "state_param":
+                need(disc_s)
+                src = f"def p_filter({disc_s[0]}, cutoff):\n    return {disc_s[0]} <= cutoff + 10\n"
+            elif variant == "choice_param":
+                need(disc_c)
+                src = f"def p_filter({disc_c[0]}, cutoff):\n    return {disc_c[0]} <= cutoff + 10\n"
+            elif variant == "period_param":
+                src = "def p_filter(_period, cutoff):\n    return _period <= cutoff + 10\n"
+            elif variant == "param_only":
+                src = "def p_filter(cutoff):\n    return cutoff <= 10\n"
+            else:
+                need(disc_s)
+                src = f"def p_filter({disc_s[0]}, lo, hi):\n    return ({disc_s[0]} >= lo - 10) & ({disc_s[0]} <= hi + 10)\n"
+            ns = {}
+            exec(src, ns)  # noqa: S102
+            kw["functions"] = {**kw["functions"], "p_filter": ns["p_filter"]}
+        elif name == "grid_start_ge_stop":
+            mk = {"equal_state": (lambda: LinspaceGrid(start=5.0, stop=5.0, n_points=4), None),
+                  "greater_state": (lambda: LinspaceGrid(start=6.0, stop=5.0, n_points=4), None),
+                  "equal_choice": (lambda: LinspaceGrid(start=2, stop=2, n_points=3), "choice"),
+                  "log_equal": (lambda: LogspaceGrid(start=2.0, stop=2.0, n_points=3), None)}[variant]
+            bad_grid(mk[0], mk[1])
+        elif name == "grid_n_points_zero":
+            n_ = {"zero": 0, "negative": -3, "float": 2.5}[variant]
+            bad_grid(lambda: LinspaceGrid(start=1.0, stop=5.0, n_points=n_))
+        elif name == "grid_non_numeric":
+            mk = {"str_start": lambda: LinspaceGrid(start="1", stop=5.0, n_points=3),
+                  "none_stop": lambda: LinspaceGrid(start=1.0, stop=None, n_points=3),
+                  "str_n_points": lambda: LinspaceGrid(start=1.0, stop=5.0, n_points="3")}[variant]
+            bad_grid(mk)
+        elif name == "grid_nan":
+            mk = {"nan_start": lambda: LinspaceGrid(start=float("nan"), stop=5.0, n_points=3),
+                  "inf_stop": lambda: LinspaceGrid(start=1.0, stop=float("inf"), n_points=3),
+                  "neg_inf_start": lambda: LogspaceGrid(start=float("-inf"), stop=5.0, n_points=3)}[variant]
+            bad_grid(mk)
+        elif name == "grid_log_nonpositive":
+            st_ = 0.0 if variant == "zero" else -1.0
+            bad_grid(lambda: LogspaceGrid(start=st_, stop=5.0, n_points=3))
+        elif name == "grid_bad_categories":
+            from dataclasses import make_dataclass
+
+            if variant == "not_dataclass":
+                class Plain:  # noqa: D401
+                    a = 0
+                    b = 1
+
+                bad_grid(lambda: DiscreteGrid(Plain))
+            else:
+                vals = {"gap": (0, 2), "duplicate": (0, 0, 1), "unordered": (1, 0), "float_half": (0, 0.5, 2), "empty": ()}[variant]
+                bad_grid(lambda: DiscreteGrid(make_dataclass("Cat", [(f"f{i}", float if isinstance(v, float) else int, v) for i, v in enumerate(vals)])))
+        else:
+            done = False
+        if done:
+            return
 
     if name == "n_periods_zero":
         kw["n_periods"] = 0
@@ -360,7 +515,7 @@ def inject(kw, desc, name, rng):
         raise ValueError(name)
 
 
-def judge_invalid(desc, names, res, add, rng):
+def judge_invalid(desc, names, res, add, rng, variants=None):
     import lcm
     from lcm.exceptions import GridInitializationError, ModelInitilizationError
 
@@ -369,13 +524,19 @@ def judge_invalid(desc, names, res, add, rng):
     add("invalid_specs")
     kw = build_kwargs(desc)
     label = "+".join(names)
+    if variants:
+        label = "+".join(f"{n}/{v}" for n, v in zip(names, variants))
     try:
-        order = sorted(names, key=lambda n: n.endswith("_not_dict"))
-        for n in order:
-            inject(kw, desc, n, rng)
+        order = sorted(range(len(names)), key=lambda i: names[i].endswith("_not_dict"))
+        for i in order:
+            inject(kw, desc, names[i], rng, variants[i] if variants else None)
     except GridRejected:
         add("rejected_correctly")
         add("rejected_by_grid_constructor")
+        return
+    except (NotApplicable, IndexError):
+        add("invalid_specs", -1)
+        add("injection_not_applicable_to_base")
         return
     stage = "Model"
     try:
@@ -389,7 +550,7 @@ def judge_invalid(desc, names, res, add, rng):
         add("rejected_at_" + stage.split("(")[0])
         return
     except Exception as e:  # noqa: BLE001
-        res["violations"].append({"key": f"rejected_with_wrong_exception|rule={names[0] if len(names) == 1 else label}|stage={stage}|type={type(e).__name__}",
+        res["violations"].append({"key": f"rejected_with_wrong_exception|rule={names[0] if (len(names) == 1 and not variants) else label}|stage={stage}|type={type(e).__name__}",
                                   "what": f"specification with rule violation(s) [{label}] was rejected at {stage} with {pipeline.exc_text(e)} instead of the initialization error / ValueError"})
         return
     # silently accepted: does it fail later?
@@ -399,7 +560,7 @@ def judge_invalid(desc, names, res, add, rng):
         f(p)
     except Exception as e:  # noqa: BLE001
         later = f"fails later in solve with {type(e).__name__}"
-    res["violations"].append({"key": f"invalid_spec_accepted|rule={names[0] if len(names) == 1 else label}",
+    res["violations"].append({"key": f"invalid_spec_accepted|rule={names[0] if (len(names) == 1 and not variants) else label}",
                               "what": f"specification with rule violation(s) [{label}] was accepted by Model(...) and get_lcm_function(...); it then {later}"})
 
 
@@ -422,6 +583,14 @@ def run_case(case):
         res["sig"] = f"reject{case['seed']}{case.get('base')}"
         res["distinct"] = len(case["sets"])
         res["sample"] = {"kind": "reject", "injection_sets": case["sets"][:6], "base": case.get("base")}
+    elif kind == "reject_variants":
+        base = lattice_desc(case.get("base") or ["base"], rng)
+        for n, v in case["variants"]:
+            judge_invalid(base, [n], res, add, rng, variants=[v])
+            add("variant_contexts_judged")
+        res["sig"] = f"rejectvar{case['seed']}{case.get('base')}"
+        res["distinct"] = len(case["variants"])
+        res["sample"] = {"kind": "reject_variants", "variants": case["variants"][:8], "base": case.get("base")}
     elif kind == "reject_generated":
         desc, realised = pipeline.model_from_case({**case, "force": {"filters": True, "two_cont_states": False}})
         st = [s for s, sp in desc["states"]]
